@@ -17,6 +17,7 @@ and block-counting moments follows from both being lumpings of one labelled proc
 This file restates the theorems the property rests on (full statements; proofs are in PGProofs/).
 Generated once by harness/mkprops.py from harness/props_table.py + PGProperties/extra/C11.lean.in; committed as source.
 -/
+import PGProofs.Conservation
 import PGProofs.RewardsThm
 import PGProofs.SampleConsistency
 import PGProofs.BridgeBC
@@ -27,6 +28,36 @@ set_option pp.fieldNotation.generalized false
 
 namespace PG.C11
 open PG
+
+/-- HEADLINE: all mixed moments of tree height and total branch length agree between the block-counting and the lineage-counting chain -/
+theorem spaces_agree : ∀ {K : Type} [inst : Field K] [inst_1 : LinearOrder K] [inst_2 : IsStrictOrderedRing K] {ι₂ : Type} [inst_3 : Fintype ι₂] [inst_4 : DecidableEq ι₂] {ι₁ : Type} [inst_5 : Fintype ι₁] [inst_6 : DecidableEq ι₁] {k D n : ℕ} [inst_7 : NeZero n] (L : ExpLaw K) (lam : ℕ → ℕ → ℕ → K) (ts : ℕ → Fin D → K) (mig : ℕ → Fin D → Fin D → K) (dec₂ : ι₂ → Fin D × Fin n → ℕ) (dec₁ : ι₁ → Fin D → ℕ) (S₂ : ℕ → Matrix ι₂ ι₂ K) (S₁ : ℕ → Matrix ι₁ ι₁ K), Function.Injective dec₁ → (∀ (e : ℕ) (f : (Fin D × Fin n → ℕ) → K) (i : ι₂), ∑ j, S₂ e i j * f (dec₂ j) = QCs (blkRate (lam e) (ts e) (mig e)) blkRes f (dec₂ i)) → (∀ (e : ℕ) (f : (Fin D → ℕ) → K) (i : ι₁), ∑ j, S₁ e i j * f (dec₁ j) = QCs (linRate (lam e) (ts e) (mig e)) linRes f (dec₁ i)) → ∀ (p : ι₂ → ι₁), (∀ (i : ι₂), dec₁ (p i) = Conservation.psi (dec₂ i)) → ∀ (sel : Fin k → Bool) (α₂ : ι₂ → K) (fs : List (ℕ × K)), accumVal L S₂ (fun a i ↦ if sel a = true then Conservation.tblB (dec₂ i) else Conservation.heightB (dec₂ i)) α₂ fs = accumVal L S₁ (fun a j ↦ if sel a = true then Conservation.tblL (dec₁ j) else Conservation.heightL (dec₁ j)) (Matrix.vecMul α₂ (Marginal.projMat p)) fs := @PG.Conservation.C11_spaces_agree
+
+/-- forgetting block sizes is a strong lumping of the block-counting generator onto the lineage-counting generator (Vandermonde collapse) -/
+theorem block_to_lineage : ∀ {D n : ℕ} [inst : NeZero n] {K : Type u_1} [inst_1 : Field K] (lam : ℕ → ℕ → K) (ts : Fin D → K) (mig : Fin D → Fin D → K) (g : (Fin D → ℕ) → K) (c : Fin D × Fin n → ℕ), QCs (blkRate lam ts mig) blkRes (fun c' ↦ g (Conservation.psi c')) c = QCs (linRate lam ts mig) linRes g (Conservation.psi c) := @PG.Conservation.block_to_lineage
+
+/-- means of rewards that sum pointwise to a total sum to the mean of the total -/
+theorem sum_mean : type_of% @PG.Conservation.C11_sum_mean := @PG.Conservation.C11_sum_mean   -- (printed statement does not re-elaborate; see the source lemma)
+
+/-- their covariances sum to the variance of the total -/
+theorem sum_cov : type_of% @PG.Conservation.C11_sum_cov := @PG.Conservation.C11_sum_cov   -- (printed statement does not re-elaborate; see the source lemma)
+
+/-- weighted sums -/
+theorem weighted : type_of% @PG.Conservation.C11_weighted := @PG.Conservation.C11_weighted   -- (printed statement does not re-elaborate; see the source lemma)
+
+/-- folded means -/
+theorem fold : type_of% @PG.Conservation.C11_fold := @PG.Conservation.C11_fold   -- (printed statement does not re-elaborate; see the source lemma)
+
+/-- folded covariances -/
+theorem fold_cov : ∀ {K : Type} [inst : Field K] [inst_1 : LinearOrder K] [inst_2 : IsStrictOrderedRing K] {ι : Type} [inst_3 : Fintype ι] [inst_4 : DecidableEq ι] (L : ExpLaw K) (S : ℕ → Matrix ι ι K) (n : ℕ) (ru rf : ℕ → ι → K), (∀ (j : ℕ) (i : ι), rf j i = ru j i + if j = n - j then 0 else ru (n - j) i) → ∀ (j j' : ℕ) (α : ι → K) (fs : List (ℕ × K)), Conservation.covVal L S (rf j) (rf j') α fs = ((Conservation.covVal L S (ru j) (ru j') α fs + if j' = n - j' then 0 else Conservation.covVal L S (ru j) (ru (n - j')) α fs) + if j = n - j then 0 else Conservation.covVal L S (ru (n - j)) (ru j') α fs) + if j = n - j ∨ j' = n - j' then 0 else Conservation.covVal L S (ru (n - j)) (ru (n - j')) α fs := @PG.Conservation.C11_fold_cov
+
+/-- every moment is linear in each reward slot (all orders k) -/
+theorem multilinear : ∀ {K : Type} [inst : Field K] [inst_1 : LinearOrder K] [inst_2 : IsStrictOrderedRing K] {ι : Type} [inst_3 : Fintype ι] [inst_4 : DecidableEq ι] {k : ℕ} (L : ExpLaw K) (S : ℕ → Matrix ι ι K) (R : Fin k → ι → K) (a : Fin k) (r' : ι → K) (c1 c2 : K) (α : ι → K) (fs : List (ℕ × K)), accumVal L S (Function.update R a fun i ↦ c1 * R a i + c2 * r' i) α fs = c1 * accumVal L S R α fs + c2 * accumVal L S (Function.update R a r') α fs := @PG.Conservation.accumVal_slot_linear
+
+/-- instantiated with the model SFS / branch-length rewards -/
+theorem model_sum_mean : type_of% @PG.Conservation.C11_model_sum_mean := @PG.Conservation.C11_model_sum_mean   -- (printed statement does not re-elaborate; see the source lemma)
+
+/-- instantiated: SFS covariances sum to the branch-length variance -/
+theorem model_sum_cov : type_of% @PG.Conservation.C11_model_sum_cov := @PG.Conservation.C11_model_sum_cov   -- (printed statement does not re-elaborate; see the source lemma)
 
 /-- sum of SFS rewards = total branch length reward -/
 theorem sum_sfs_eq_tbl : ∀ (n D : ℕ) (s : State), 2 ≤ n → IsBC n D s → massOK n s → ∑ i ∈ Finset.Icc 1 (n - 1), Reward.eval n s (Reward.unfoldedSFS i) = Reward.eval n s Reward.totalBranchLength := @PG.sum_sfs_eq_tbl
@@ -51,6 +82,16 @@ theorem lumping_block : ∀ {D n : ℕ} [inst : NeZero n] (m : Model) (ts : Fin 
 
 end PG.C11
 
+#print axioms PG.C11.spaces_agree
+#print axioms PG.C11.block_to_lineage
+#print axioms PG.C11.sum_mean
+#print axioms PG.C11.sum_cov
+#print axioms PG.C11.weighted
+#print axioms PG.C11.fold
+#print axioms PG.C11.fold_cov
+#print axioms PG.C11.multilinear
+#print axioms PG.C11.model_sum_mean
+#print axioms PG.C11.model_sum_cov
 #print axioms PG.C11.sum_sfs_eq_tbl
 #print axioms PG.C11.weighted_sfs
 #print axioms PG.C11.folded_is_fold
